@@ -5,3 +5,19 @@ TABLE = {
     ("iNetX_INETX_HEADER_LENGTH", "nat", "iNetX.INETX_HEADER_LENGTH"),
   ]),
 }
+
+TABLE["IENA"] = ("AcraNetwork.IENA", [
+    ("IENA_HEADER_FORMAT", "fmt", "IENA.IENA_HEADER_FORMAT"),
+    ("IENA_HEADER_LENGTH", "nat", "IENA.IENA_HEADER_LENGTH"),
+    ("IENA_TRAILER_LENGTH", "nat", "IENA.TRAILER_LENGTH"),
+    ("IENAM_FORMAT", "fmt", "IENAM._FORMAT_"),
+    ("IENAM_FORMAT_LEN", "nat", "IENAM._FORMAT_LEN_"),
+    ("IENAQ_FORMAT", "fmt", "IENAQ._FORMAT_"),
+    ("IENAQ_FORMAT_LEN", "nat", "IENAQ._FORMAT_LEN_"),
+    ("IENA_DEFAULT_ENDFIELD", "nat", "IENA().endfield"),
+])
+INLINE = {
+  "IENA": [("AcraNetwork.IENA", "IENA.pack", "IENA_pack"), ("AcraNetwork.IENA", "IENA.unpack", "IENA_unpack"),
+           ("AcraNetwork.IENA", "IENAM.pack", "IENAM_pack"), ("AcraNetwork.IENA", "IENAQ.pack", "IENAQ_pack"),
+           ("AcraNetwork.IENA", "IENAD.unpack", "IENAD_unpack"), ("AcraNetwork.IENA", "IENAN.unpack", "IENAN_unpack")],
+}
